@@ -146,3 +146,21 @@ func lemmaRefSymbolicRoundTrip(r *RefRecord, buf []byte, hashSize int, t int) {
 	vAssert(r2.UpdateIndex == idx, "same update index")
 	vAssert(len(r2.Target) == wantLen && r2.Target[t] == want, "same target, character by character")
 }
+
+// lemmaRefDeletionRoundTrip (C01, layer 3, ref deletion records): a record without value, peeled value and target is
+// written as its update index alone and reads back as a deletion with the same update index.
+func lemmaRefDeletionRoundTrip(r *RefRecord, buf []byte, hashSize int) {
+	vAssume(r != nil && r.UpdateIndex < 1<<62 && len(r.Value) == 0 && len(r.TargetValue) == 0 && r.Target == "")
+	vAssume(hashSize == 20 || hashSize == 32)
+	n, fits := r.encode(buf, hashSize)
+	if !fits {
+		return
+	}
+	idx := r.UpdateIndex
+	var r2 RefRecord
+	m, ok := r2.decode(buf[:n], r.RefName, r.valType(), hashSize)
+	vAssert(ok, "the decoder accepts what the encoder wrote")
+	vAssert(m == n, "it consumes exactly the bytes written")
+	vAssert(r2.UpdateIndex == idx, "same update index")
+	vAssert(len(r2.Value) == 0 && len(r2.TargetValue) == 0 && r2.Target == "", "still a deletion")
+}
